@@ -29,7 +29,7 @@ def scenario(ctx, backend, cases, rnd, trace, run_id, quick):
     port3 = free_port()
     main = Tracker(ctx, "udp", udp_config(port, backend, alist=alist), "main_" + backend)
     other = Tracker(ctx, "udp", udp_config(port2, backend, alist=alist), "other_" + backend)
-    shortl = Tracker(ctx, "udp", udp_config(port3, backend, alist=alist, max_age=1), "short_" + backend)
+    shortl = Tracker(ctx, "udp", udp_config(port3, backend, alist=alist, max_age=2), "short_" + backend)
     drv = None
     stats = {"datagrams": 0, "replies": 0}
     try:
@@ -121,6 +121,14 @@ def scenario(ctx, backend, cases, rnd, trace, run_id, quick):
         r = drv.send(sc, connect_req(drv.next_txid()), {"class": "connect_ok", "conn": "none", "txid": drv.txid}, True)
         # (the short-lived tracker has its own empty swarm: use a separate run for its events)
         stale_id = r["conn_id"] if r else 0
+        # the id is USED once while it is fresh (a scrape of a torrent nobody announced: answered with zeros), so
+        # that a validator which remembers ids it has accepted meets the same id again after it has gone stale
+        # (max_connection_age = 2: the use follows the issue within milliseconds, at most one clock tick)
+        tx = drv.next_txid()
+        drv.send(sc, build(drv, "scrape_ok", stale_id, tx, 1, 7998, rnd, hs=[77]),
+                 {"class": "scrape_ok", "conn": "valid", "txid": tx, "h": 1, "port": 7998, "event": "none", "left": 1,
+                  "numwant": -1, "hs": [77]}, True)
+        stats["datagrams"] += 1
         drv.idle += getattr(drv, "raw_pending", [])
         drv.raw_pending = []
         drv.quiet(0.35 if quick else 1.0)
@@ -128,7 +136,7 @@ def scenario(ctx, backend, cases, rnd, trace, run_id, quick):
         trace.append({"ev": "reset", "run": run_id + 1, "backend": backend, "max_scrape": 3, "max_resp": 5,
                       "forbidden": [FORBIDDEN]})
         # the validator's whole-second clock is refreshed every 256 poll iterations (mio) or every 5 s (io_uring)
-        time.sleep(2.6 if backend == "mio" else 6.8)
+        time.sleep(3.6 if backend == "mio" else 7.8)
         for cls in ("announce_ok", "scrape_ok", "announce_port0", "scrape_empty"):
             tx = drv.next_txid()
             data = build(drv, cls, stale_id, tx, 1, 7999, rnd, hs=[1])
@@ -291,7 +299,7 @@ def run(ctx):
         "rule": "every row of the decision table printed by TLC (13 datagram classes x 6 ways of obtaining the "
                 "connection id x source port 0 x allowed/forbidden hash) is concretised and sent to a running "
                 "tracker on both backends from sockets on several loopback addresses (IPv4 and ::1, raw socket "
-                "for source port 0), one outstanding datagram per socket; stale ids use max_connection_age = 1; "
+                "for source port 0), one outstanding datagram per socket; stale ids use max_connection_age = 2 and are used once while fresh; "
                 "foreign ids come from another source address and from a second tracker process; every reply "
                 "(or its absence after a quiet period) is validated by TLC",
     })
